@@ -6,6 +6,7 @@ import CifModel.Lemmas.StoreRefineQ
 import CifModel.Lemmas.StoreRefineS
 import CifModel.Lemmas.StoreRefineR
 import CifModel.Lemmas.StoreRefineC
+import CifModel.Lemmas.StoreTotalS
 /-
   Property C04 — the managed CIF behaves as the documented data model under any API history.
 
@@ -907,5 +908,201 @@ theorem C04_cex_F34_pinned :
 -- non-vacuity of the invariant theorems: a history with failing and succeeding ops reaches a non-trivial state
 example : countsAfter [.cifNew, .mkBlock 0 (some (nm (a!"b"))), .mkLoop 0 none [nm (a!"_a"), nm (a!"_b")],
     .addPkt 0 [(a!"_a", .na), (a!"_b", .unk)], .addPkt 0 [(a!"_a", .na), (a!"_zz", .unk)], .setVal 0 (some (nm (a!"_s"))) none] = [(2, 3, 3)] := by decide
+
+
+-- ---- every packet has a value for every item of its loop (what fix e266ec6 of F30 established) ------------------------------------
+
+/-- the update in `op` (if it is one) goes through an iterator that is still attached to its loop: it stands on a packet the loop
+    has, and the names it took at cif_loop_get_packets are items of that loop.  cif.h promises nothing else: "behavior is undefined
+    if the underlying loop is accessed (even just for reading) other than via the iterator", and cif_loop_destroy invalidates "any
+    outstanding iterators over its contents". -/
+def UpdateAttached (w : World) (op : Op) : Prop :=
+  ∀ i p, op = .itUpd i p → ∀ e s, w.liveI i = some (e, s) → e.it.Attached s.db
+
+/-- Every op of a history keeps, in every managed CIF (content and every snapshot a rollback could restore), `Inv` and
+    PacketsTotal: every packet of every loop has a stored value for every item of the loop. -/
+theorem C04_packets_total_step (w : World) (op : Op) (h : WGood w) (hat : UpdateAttached w op) : WGood (step w op).1 := by
+  cases op with
+  | cifNew =>
+    intro c s hs
+    simp only [step] at hs
+    by_cases hc : c < w.cifs.length
+    · exact h c s (by simpa [List.getD, List.getElem?_append_left hc] using hs)
+    · have hge : w.cifs.length ≤ c := by omega
+      simp only [List.getD, List.getElem?_append_right hge] at hs
+      cases hi : c - w.cifs.length with
+      | zero => simp [hi] at hs; subst hs; exact GoodS.empty
+      | succ k => simp [hi] at hs
+  | cifDel c =>
+    simp only [step]
+    split
+    · exact h
+    · intro c' s hs
+      simp only [] at hs
+      rcases getD_set_any _ _ _ _ _ hs with hx | hx
+      · cases hx
+      · exact h c' s hx
+  | mkBlock c n =>
+    simp only [step]; split
+    · exact h.of_cifs rfl
+    · rename_i s hl; exact (h.setCif c _ (createBlock_goodS (h.live hl) n false)).of_cifs rfl
+  | getBlock c n =>
+    simp only [step]; split
+    · exact h.of_cifs rfl
+    · rename_i s hl; exact (h.setCif c _ (by rw [getBlock_fst]; exact h.live hl)).of_cifs rfl
+  | blocks c =>
+    simp only [step]; split
+    · exact h
+    · rename_i s hl; exact h.setCif c _ (h.live hl)
+  | mkFrame hh n =>
+    simp only [step]; split
+    · exact h.of_cifs rfl
+    · rename_i e s hl; exact (h.setCif _ _ (createFrame_goodS (h.live (liveH_liveC hl)) e.h n false)).of_cifs rfl
+  | getFrame hh n =>
+    simp only [step]; split
+    · exact h.of_cifs rfl
+    · rename_i e s hl; exact (h.setCif _ _ (by rw [getFrame_fst]; exact h.live (liveH_liveC hl))).of_cifs rfl
+  | frames hh =>
+    simp only [step]; split
+    · exact h
+    · rename_i e s hl; exact h.setCif _ _ (h.live (liveH_liveC hl))
+  | cdestroy hh =>
+    simp only [step]; split
+    · exact h
+    · rename_i e s hl
+      split
+      · exact h
+      · exact (h.setCif _ _ (destroyContainer_goodS (h.live (liveH_liveC hl)) e.h)).of_cifs rfl
+  | code hh => simp only [step]; split <;> exact h
+  | isBlock hh => simp only [step]; split <;> exact h
+  | mkLoop hh cat names =>
+    simp only [step]; split
+    · exact h.of_cifs rfl
+    · rename_i e s hl; exact (h.setCif _ _ (createLoop_goodS (h.live (liveH_liveC hl)) e.h cat names)).of_cifs rfl
+  | catLoop hh cat =>
+    simp only [step]; split
+    · exact h.of_cifs rfl
+    · rename_i e s hl; exact (h.setCif _ _ (by rw [getCategoryLoop_fst]; exact h.live (liveH_liveC hl))).of_cifs rfl
+  | itemLoop hh n =>
+    simp only [step]; split
+    · exact h.of_cifs rfl
+    · rename_i e s hl; exact (h.setCif _ _ (by rw [getItemLoop_fst]; exact h.live (liveH_liveC hl))).of_cifs rfl
+  | loops hh =>
+    simp only [step]; split
+    · exact h
+    · rename_i e s hl
+      have h1 := allLoops_goodS (h.live (liveH_liveC hl)) e.h
+      split
+      · rename_i s1 c1 he; rw [he] at h1; exact h.setCif _ _ h1
+      · rename_i s1 ls he
+        rw [he] at h1
+        refine h.setCif _ _ ?_
+        -- the caller's get_names on each returned handle
+        have : ∀ (ls : List LH) (acc : Store × List (Option Str × Option (List Str))), GoodS acc.1 →
+            GoodS (ls.foldl (fun (acc : Store × List (Option Str × Option (List Str))) l =>
+              match getNames acc.1 l with
+              | (s', .ok ns) => (s', acc.2 ++ [(l.category, some (ns.map (·.2)))])
+              | (s', .error _) => (s', acc.2 ++ [(l.category, none)])) acc).1 := by
+          intro ls
+          induction ls with
+          | nil => intro acc ha; exact ha
+          | cons l ls ih =>
+            intro acc ha
+            simp only [List.foldl_cons]
+            apply ih
+            have hn := getNames_goodS ha l
+            split
+            · rename_i he; rw [he] at hn; exact hn
+            · rename_i he; rw [he] at hn; exact hn
+        exact this ls (s1, []) h1
+  | prune hh =>
+    simp only [step]; split
+    · exact h
+    · rename_i e s hl; exact h.setCif _ _ (prune_goodS (h.live (liveH_liveC hl)) e.h)
+  | getVal hh n =>
+    simp only [step]; split
+    · exact h
+    · rename_i e s hl
+      split
+      · exact h
+      · rename_i nm
+        have hf := getValue_fst s e.h (some nm)
+        split
+        · rename_i s1 v amb he; rw [he] at hf; simp only [] at hf; subst hf; exact h.setCif _ _ (h.live (liveH_liveC hl))
+        · rename_i s1 c1 he; rw [he] at hf; simp only [] at hf; subst hf; exact h.setCif _ _ (h.live (liveH_liveC hl))
+  | setVal hh n v =>
+    simp only [step]; split
+    · exact h
+    · rename_i e s hl; exact h.setCif _ _ (setValue_goodS (h.live (liveH_liveC hl)) e.h n v)
+  | rmItem hh n =>
+    simp only [step]; split
+    · exact h
+    · rename_i e s hl; exact h.setCif _ _ (removeItem_goodS (h.live (liveH_liveC hl)) e.h n)
+  | ldestroy l =>
+    simp only [step]; split
+    · exact h
+    · rename_i e s hl
+      split
+      · exact h
+      · exact (h.setCif _ _ (destroyLoop_goodS (h.live (liveL_liveC hl)) e.h)).of_cifs rfl
+  | getCat l => simp only [step]; split <;> exact h
+  | setCat l cat =>
+    simp only [step]; split
+    · exact h
+    · rename_i e s hl; exact (h.setCif _ _ (setCategory_goodS (h.live (liveL_liveC hl)) e.h cat)).of_cifs rfl
+  | names l =>
+    simp only [step]; split
+    · exact h
+    · rename_i e s hl; exact h.setCif _ _ (getNames_goodS (h.live (liveL_liveC hl)) e.h)
+  | addItem l n v =>
+    simp only [step]; split
+    · exact h
+    · rename_i e s hl
+      split
+      · exact h
+      · exact h.setCif _ _ (addItem_goodS (h.live (liveL_liveC hl)) e.h _ v)
+  | addPkt l p =>
+    simp only [step]; split
+    · exact h
+    · rename_i e s hl; exact h.setCif _ _ (addPacket_goodS (h.live (liveL_liveC hl)) e.h p)
+  | itOpen l =>
+    simp only [step]; split
+    · exact h.of_cifs rfl
+    · rename_i e s hl; exact (h.setCif _ _ (getPackets_goodS (h.live (liveL_liveC hl)) e.h)).of_cifs rfl
+  | itNext i => simp only [step]; split <;> exact h.of_cifs rfl
+  | itUpd i p =>
+    simp only [step]; split
+    · exact h
+    · rename_i e s hl; exact h.setCif _ _ (updatePacket_goodS (h.live (liveI_liveC hl)) e.it p (hat i p rfl e s hl))
+  | itRem i =>
+    simp only [step]; split
+    · exact h
+    · rename_i e s hl; exact (h.setCif _ _ (removePacket_goodS (h.live (liveI_liveC hl)) e.it)).of_cifs rfl
+  | itClose i =>
+    simp only [step]; split
+    · exact h
+    · rename_i e s hl; exact (h.setCif _ _ (closeIter_goodS (h.live (liveI_liveC hl)))).of_cifs rfl
+  | itAbort i =>
+    simp only [step]; split
+    · exact h
+    · rename_i e s hl; exact (h.setCif _ _ (abortIter_goodS (h.live (liveI_liveC hl)))).of_cifs rfl
+
+def UpdatesAttached : World → List Op → Prop
+  | _, [] => True
+  | w, op :: ops => UpdateAttached w op ∧ UpdatesAttached (step w op).1 ops
+
+/-- PacketsTotal is an invariant of all API histories whose iterator updates go through attached iterators -/
+theorem C04_packets_total : ∀ (ops : List Op) (w : World), WGood w → UpdatesAttached w ops → WGood (run w ops).1
+  | [], w, h, _ => h
+  | op :: ops, w, h, ha => by
+    unfold run
+    exact C04_packets_total ops _ (C04_packets_total_step w op h ha.1) ha.2
+
+theorem C04_packets_total_init : WGood {} := WGood.empty
+
+/-- what it says about one CIF -/
+theorem C04_packets_total_reads (w : World) (h : WGood w) (c : Nat) (s : Store) (hs : w.cifs.getD c none = some s) :
+    ∀ x ∈ s.db.loops, ∀ r ∈ s.db.loopRows x.cid x.loopNum, ∀ j ∈ s.db.loopItems x.cid x.loopNum, s.db.hasValue x.cid j.name r = true :=
+  (h c s hs).db.total
 
 end CifModel
